@@ -55,6 +55,7 @@ type Step struct {
 type MockCfg struct {
 	Infos    int  `json:"infos"`
 	EndOnHit bool `json:"end_on_hit"`
+	NoPoll   bool `json:"no_poll"` // the search never polls opts.PonderHit (deep inside an iteration)
 }
 
 type Spec struct {
@@ -92,7 +93,7 @@ func (sp *Spec) ops() []string {
 		}
 	}
 	for i, m := range sp.Mocks {
-		ops = append(ops, fmt.Sprintf("mock[%d]:infos=%d,end_on_hit=%v", i, m.Infos, m.EndOnHit))
+		ops = append(ops, fmt.Sprintf("mock[%d]:infos=%d,end_on_hit=%v,no_poll=%v", i, m.Infos, m.EndOnHit, m.NoPoll))
 	}
 	return ops
 }
@@ -163,6 +164,7 @@ type blockT struct {
 	tpl    goTpl
 	term   string // self | stop | quit | eof | hit | timer
 	extra  bool   // an additional isready while the search runs
+	burst  int    // additional ponderhit lines while the search runs
 	fixedT int    // timing of the (non-swept) blocks' probe
 	probe  string // "" | isready | stop | ponderhit | quit | eof
 	mock   MockCfg
@@ -242,7 +244,13 @@ func genSkeleton(rng *rand.Rand) skeleton {
 		if bl.term != "hit" && rng.IntN(4) == 0 {
 			bl.mock.EndOnHit = true
 		}
+		if !bl.mock.EndOnHit && rng.IntN(3) == 0 {
+			bl.mock.NoPoll = true
+		}
 		bl.extra = rng.IntN(10) < 3
+		if rng.IntN(8) == 0 {
+			bl.burst = 1 + rng.IntN(3)
+		}
 		bl.fixedT = rng.IntN(8)
 		probes := []string{"isready", "isready", "stop", "stop", "ponderhit", "quit", "eof"}
 		if ponder {
@@ -336,6 +344,9 @@ func (sk *skeleton) build(id, script, t int) Spec {
 		at(1)
 		if bl.extra {
 			add(send("isready", "i:isready"))
+		}
+		for k := 0; k < bl.burst; k++ {
+			add(send("ponderhit", "i:ponderhit"))
 		}
 		selfReal := sk.mode == "real" && len(term) == 0
 		if !selfReal {
@@ -532,6 +543,9 @@ func (m *mockSearch) Go(_ *board.Board, opts ...search.Option) (Score, move.Move
 		fmt.Fprintf(o.Output, "info depth %d score cp %d nodes %d time 0 hashfull 0 pv e2e4 e7e5\n", k, 10+k, 100*k)
 	}
 	ph := o.PonderHit
+	if cfg.NoPoll {
+		ph = nil
+	}
 	for {
 		select {
 		case <-o.Stop:
@@ -597,16 +611,34 @@ func runSpec(sp *Spec, real *search.Search) Res {
 		rec.add("ret")
 	}()
 	// the GUI's side of stdin: an unbounded FIFO of lines in front of the pipe
+	// (quit does not close stdin: only an explicit EOF step does)
 	lines := make(chan string, 256)
+	eofCh := make(chan struct{})
 	feedDone := make(chan struct{})
 	go func() {
 		defer close(feedDone)
-		for l := range lines {
-			if _, err := pw.Write([]byte(l + "\n")); err != nil {
+		for {
+			select {
+			case l := <-lines:
+				if _, err := pw.Write([]byte(l + "\n")); err != nil {
+					return
+				}
+			case <-eofCh:
+				for {
+					select {
+					case l := <-lines:
+						if _, err := pw.Write([]byte(l + "\n")); err != nil {
+							return
+						}
+						continue
+					default:
+					}
+					break
+				}
+				pw.Close()
 				return
 			}
 		}
-		pw.Close()
 	}()
 	closed := false // quit or EOF already written
 	var sentReady int
@@ -639,7 +671,6 @@ func runSpec(sp *Spec, real *search.Search) Res {
 			lines <- st.S
 			if st.T == "i:quit" {
 				closed = true
-				close(lines)
 			}
 		case "eof":
 			if closed {
@@ -652,7 +683,7 @@ func runSpec(sp *Spec, real *search.Search) Res {
 			rec.toks = append(rec.toks, "eof")
 			rec.mu.Unlock()
 			closed = true
-			close(lines)
+			close(eofCh)
 		case "waitBest":
 			if !rec.waitFor(func() bool { return rec.nBest >= rec.nGo }) {
 				rec.mu.Lock()
@@ -686,7 +717,7 @@ func runSpec(sp *Spec, real *search.Search) Res {
 	}
 	if !closed {
 		rec.add("eof")
-		close(lines)
+		close(eofCh)
 	}
 	returned := true
 	select {
@@ -695,6 +726,14 @@ func runSpec(sp *Spec, real *search.Search) Res {
 		returned = false
 	}
 	pr.Close() // unblocks the feeder if the reader goroutine left lines unread (after quit)
+	pw.Close()
+	if closed {
+		select {
+		case <-eofCh:
+		default:
+			close(eofCh) // quit case: let the feeder end
+		}
+	}
 	<-feedDone
 	rec.mu.Lock()
 	if !returned {
